@@ -187,3 +187,47 @@ package libmem
 //@ assert[C06] in (*Allocator).zoneShrinkUsage at "a.zoneMove(zone|nodes, req)": req != nil && req.id in a.requests && a.requests[req.id] == req
 //@ assert[C07] in (*Allocator).zoneShrinkUsage at "a.zoneMove(zone|nodes, req)": forall j int :: rangeindex + 1 < j && j < len($t36) ==> $t36[j].id != req.id
 //@ assert[C07] in (*Allocator).zoneShrinkUsage at "a.zoneMove(zone|nodes, req)": req.id in a.users && a.users[req.id] == zone
+
+// What every step of a transaction preserves (old() = state at entry of the function the clause belongs to).
+//@ pure txpres(a *Allocator) bool = txn(a) && nocustom(a) && a.journal == old(a.journal) && a.requests == old(a.requests) &&
+//@    dom(a.requests) == old(dom(a.requests)) && vals(a.requests) == old(vals(a.requests)) &&
+//@    (forall id string :: origd(a, id) == old(origd(a, id)) && origv(a, id) == old(origv(a, id))) &&
+//@    (forall id string :: old(id in a.users) ==> id in a.users && (a.users[id] & old(a.users[id])) == old(a.users[id]))
+
+//@ func (*Allocator).defaultHandleOvercommit ints=bv64
+//@   requires txn(a) && nocustom(a)
+//@   ensures[C06,C07] txpres(a)
+//@ loop 0 in (*Allocator).defaultHandleOvercommit at "for {"
+//@   invariant txpres(a)
+//@ loop 1 in (*Allocator).defaultHandleOvercommit at "range allowedPrios"
+//@   invariant txpres(a)
+//@ loop 2 in (*Allocator).defaultHandleOvercommit at "range expandTypes"
+//@   invariant txpres(a)
+//@ loop 3 in (*Allocator).defaultHandleOvercommit at "range oc"
+//@   invariant txpres(a)
+//@ loop 4 in (*Allocator).defaultHandleOvercommit at "range spill"
+//@   invariant txpres(a)
+
+//@ func (*Allocator).handleOvercommit ints=bv64
+//@   requires txn(a) && nocustom(a)
+//@   ensures[C06,C07] txpres(a)
+
+// ---- request validation and initial placement (frames for C06; placement rules are C07) ---------------
+
+//@ func (*Allocator).validateRequest ints=bv64
+//@   requires a != nil && req != nil && a.masks != nil
+//@   modifies req.types
+//@   ensures[C06] result == nil ==> !(req.id in a.requests) && req.affinity != 0
+
+//@ func (*Allocator).findInitialZone ints=bv64 tags=C06 inline=12
+//@   requires a != nil && req != nil && a.masks != nil && a.custom.ExpandZone == nil
+//@   modifies req.zone
+//@   ensures[C07] result == nil && req.strict ==> (req.zone & a.masks.nodes.byTypes[req.types]) == req.zone
+
+//@ func (*Allocator).ensureNormalMemory ints=bv64 inline=12
+//@   requires a != nil && req != nil && a.masks != nil && a.custom.ExpandZone == nil
+//@   modifies req.zone, req.types
+//@   ensures[C07] result == nil ==> (req.zone & a.masks.nodes.normal) != 0
+//@   ensures[C07] (req.zone & old(req.zone)) == old(req.zone)
+//@ loop 0 in (*Allocator).ensureNormalMemory at "a.expand(zone, types)"
+//@   invariant (zone & old(req.zone)) == old(req.zone) && req.zone == old(req.zone)
